@@ -45,7 +45,9 @@ def memo_rules(ctx: Ctx, rep: Report, rid: str = "R05.1", only_class: Optional[s
                 rep.instance()
                 reads = ef.self_reads(f, None)
                 mutable = _mutable_after_init(ctx, cls)
-                key = _hash_key(ctx, cls)
+                # lru_cache / cache look the receiver up by its hash and equality; cached_property stores the value in the
+                # instance once and for all - nothing the object hashes by can invalidate it
+                key = set() if "cached_property" in decs else _hash_key(ctx, cls)
                 stale = sorted((reads & mutable) - key)
                 if stale:
                     writers = sorted({w for a in stale for w in _writers_of(ctx, cls, a)})
@@ -1007,6 +1009,33 @@ def rejected_address_changes_nothing(ctx: Ctx, rep: Report, rid: str = "R05.17")
     rejected_leaves_unchanged(ctx, rep, rid=rid, targets=tuple(targets), what="the new kind / group name / number over the old network: the address renders another set than it matches (`host 10.0.0.0` that still covers 10.0.0.0/24), and every containment and shadow answer follows the old network", inp="a = Address('10.0.0.0 0.0.0.255'); a.line = 'host 10.0.0.300'  # ValueError; a.line == 'host 10.0.0.0', a.ipnets() == [10.0.0.0/24]")
 
 
+def network_from_a_checked_mask(ctx: Ctx, rep: Report, rid: str = "R05.18") -> None:
+    """"A single network is reported exactly when the mask is contiguous": `IPv4Network("A/M")` reads M as a net mask OR
+    as a host mask.  Where the wildcard module inverts a wildcard mask and hands the result to `IPv4Network`, every path
+    from the inversion to the constructor passes the test that the inverted text IS a net mask (`is_mask`): without it a
+    wildcard of leading ones (128.0.0.0 -> 127.255.255.255, a host mask) is read as another network, or an
+    undocumented "has host bits set" ValueError escapes for a legal line."""
+    rep.rule(rid)
+    n = 0
+    for f in [g for g in ctx.prog.funcs if g.module.name.endswith("wildcard")]:
+        cfg = ctx.cfg(f)
+        inv = [nd for nd in cfg.live if nd.kind == "stmt" and isinstance(nd.ast, (ast.Assign, ast.AnnAssign)) and getattr(nd.ast, "value", None) is not None and any(isinstance(c, ast.Call) and src(c.func).endswith("invert_mask") for c in ast.walk(nd.ast.value))]
+        nets = [nd for nd in cfg.live if nd.ast is not None and nd.kind in ("stmt", "cond") and any(isinstance(c, ast.Call) and src(c.func).endswith("IPv4Network") for c in ast.walk(nd.ast))]
+        for d in inv:
+            for nd in nets:
+                if nd not in cfg.reachable(d, labels_avoid=("exc",)):
+                    continue
+                n += 1
+                rep.instance()
+                checked = cfg.all_paths_pass(d, nd, lambda x: x.kind == "cond" and x.ast is not None and any(isinstance(c, ast.Call) and src(c.func).endswith("is_mask") for c in ast.walk(x.ast)), labels_avoid=("exc",))
+                if checked:
+                    rep.ok(f"{f.qualname}: {snippet(d.ast, 40)}", "the inverted mask is tested to be a net mask before IPv4Network reads it", where=where(f, d.ast))
+                else:
+                    rep.violation(f.qualname, f"{snippet(d.ast, 40)} ... {snippet(nd.ast, 40)}", "the inverted wildcard mask reaches IPv4Network without having been tested to be a net mask: ipaddress also accepts HOST masks, so a wildcard of leading ones (`10.0.0.0 128.0.0.0`) is read as the network of its own inverse, or refused with an undocumented 'has host bits set' ValueError, instead of being expanded into its prefixes", where(f, d.ast), inp="Wildcard('10.0.0.0 128.0.0.0')  /  Address('10.0.0.1 255.0.0.0')")
+    if n == 0:
+        rep.note(f"{rid} no inverted mask reaches an IPv4Network construction in the wildcard module - not judged")
+
+
 def limit_error_not_swallowed(ctx: Ctx, rep: Report, rid: str = "R05.16") -> None:
     """"Rejected with an error, never approximated" holds for containers too: where a builder skips an item whose text it
     cannot read (`except ValueError: log; continue`) and the construction in the `try` can raise the limit error
@@ -1288,6 +1317,7 @@ def run(ctx: Ctx, rep: Report, tier: str) -> None:
     memo_not_handed_out(ctx, rep)
     drivers_hand_over_limit(ctx, rep)
     limit_error_not_swallowed(ctx, rep)
+    network_from_a_checked_mask(ctx, rep)
     rejected_address_changes_nothing(ctx, rep)
     expansion_covers_members(ctx, rep)
     # R05.11 a factory hands the caller's limit (all its keyword arguments) to the object it builds, on every path
